@@ -1,4 +1,4 @@
-import BoltonsVerif.C06.Parsed
+import BoltonsVerif.C06.Scalar
 /-
 C06 — property theorems for the URL quoting / parsing / rendering model.
 
@@ -431,37 +431,59 @@ The theorems above are about URL objects of a given shape.  Every URL that the p
 absolute path when there is a host -, `parse_qsl` never produces an (empty key, no value) pair), so the fixed-point
 clause can be stated the way the property reads: parse a text, render, parse, render - the two renderings are equal. -/
 
+/-- what the theorems below assume of the normaliser besides `NfcLaws`: encodable text (Unicode scalar values
+    only, i.e. a Python `str` without lone surrogates) stays encodable - true of NFC -/
+def NfcScalar (nfc : Text → Text) : Prop :=
+  ∀ s, (∀ x ∈ s, isScalar x = true) → ∀ x ∈ nfc s, isScalar x = true
+
+/-- `unquote` of encodable text is encodable text: CPython's UTF-8 decoder with errors='replace' never produces a
+    lone surrogate or a value beyond U+10FFFF, whatever escapes the text contains … -/
+theorem unquote_scalar (s : Text) (hs : ∀ x ∈ s, isScalar x = true) : ∀ x ∈ unquote s, isScalar x = true :=
+  unquote_scalar_of s hs
+
+/-- … hence every component text of a URL parsed from encodable text is encodable (and can be rendered again) -/
+theorem parsed_components_scalar (env : Env) (hnfc : NfcScalar env.nfc) (t : Text) (u : URL)
+    (h : URL.ofText env t = .ok u) (ht : ∀ x ∈ t, isScalar x = true) : Scalars env u :=
+  parsed_scalars hnfc h ht
+
+/- `%ED%A0%80` (the UTF-8 form of the surrogate U+D800) and `%F4%90%80%80` (beyond U+10FFFF) decode to
+   replacement characters, not to the forbidden values -/
+example : unquote [37, 69, 68, 37, 65, 48, 37, 56, 48] = [0xFFFD, 0xFFFD, 0xFFFD] ∧
+    unquote [37, 70, 52, 37, 57, 48, 37, 56, 48, 37, 56, 48] = [0xFFFD, 0xFFFD, 0xFFFD, 0xFFFD] := by decide +kernel
+
 /-- FULL STATEMENT (fixed-point clause, full quoting): for every well-formed URL / reference `t`,
     `render(parse(render(parse t))) = render(parse t)`.
-    PROVED PART: for EVERY text `t` - well-formed or not - that parses to a URL with a host (a registered name or
-    IPv4 literal that the idna codec leaves alone, or an IPv6 literal; with or without scheme, userinfo, port
-    - any natural number -, path, query, fragment) whose decoded texts are encodable (`Scalars`: no lone surrogates).
+    PROVED PART: for EVERY encodable text `t` - well-formed or not - that parses to a URL with a host (a registered
+    name or IPv4 literal that the idna codec leaves alone, or an IPv6 literal; with or without scheme, userinfo,
+    port - any natural number -, path, query, fragment).
     Not covered: IDN hosts, userinfo with an empty host, negative ports (which are not well-formed anyway). -/
-theorem parsed_fixed_full_partial (env : Env) (hl : NfcLaws env.nfc) (t : Text) (u : URL)
+theorem parsed_fixed_full_partial (env : Env) (hl : NfcLaws env.nfc) (hnfc : NfcScalar env.nfc) (t : Text) (u : URL)
+    (ht : ∀ x ∈ t, isScalar x = true)
     (h : URL.ofText env t = .ok u) (hne : u.host ≠ []) (hhost : HostOK env true u)
-    (hidna : env.idnaDec u.host = some u.host) (hport : PortNat u) (hs : Scalars env u) :
+    (hidna : env.idnaDec u.host = some u.host) (hport : PortNat u) :
     ∃ t₁ u₁, toText env true u = .ok t₁ ∧ URL.ofText env t₁ = .ok u₁ ∧ toText env true u₁ = .ok t₁ :=
-  render_fixed_full_partial env hl u (parsed_WF hl h hne hhost hidna hport hs)
+  render_fixed_full_partial env hl u (parsed_WF hl h hne hhost hidna hport (parsed_scalars hnfc h ht))
 
-/-- the same for every text that parses to a URL or reference WITHOUT authority (no host, no userinfo): no further
-    condition than encodable texts - in particular every well-formed `scheme:path?q#f`, `scheme:///path`, relative
-    reference -/
-theorem parsed_fixed_full_noauth (env : Env) (hl : NfcLaws env.nfc) (t : Text) (u : URL)
-    (h : URL.ofText env t = .ok u) (hh : u.host = []) (hu : u.username = []) (hp : u.password = [])
-    (hs : Scalars env u) :
+/-- the same for every encodable text that parses to a URL or reference WITHOUT authority (no host, no userinfo):
+    no further condition - in particular every well-formed `scheme:path?q#f`, `scheme:///path`, relative reference -/
+theorem parsed_fixed_full_noauth (env : Env) (hl : NfcLaws env.nfc) (hnfc : NfcScalar env.nfc) (t : Text) (u : URL)
+    (ht : ∀ x ∈ t, isScalar x = true)
+    (h : URL.ofText env t = .ok u) (hh : u.host = []) (hu : u.username = []) (hp : u.password = []) :
     ∃ t₁ u₁, toText env true u = .ok t₁ ∧ URL.ofText env t₁ = .ok u₁ ∧ toText env true u₁ = .ok t₁ :=
-  have ⟨t₁, u₁, h1, h2, h3, _⟩ := render_fixed_full_noauth_partial env hl u (parsed_WFna hl h hh hu hp hs)
+  have ⟨t₁, u₁, h1, h2, h3, _⟩ := render_fixed_full_noauth_partial env hl u
+    (parsed_WFna hl h hh hu hp (parsed_scalars hnfc h ht))
   ⟨t₁, u₁, h1, h2, h3⟩
 
 /-- minimal quoting, when no decoded path segment, query key / value or fragment contains `%` -/
-theorem parsed_fixed_min_partial (env : Env) (hl : NfcLaws env.nfc) (t : Text) (u : URL)
+theorem parsed_fixed_min_partial (env : Env) (hl : NfcLaws env.nfc) (hnfc : NfcScalar env.nfc) (t : Text) (u : URL)
+    (ht : ∀ x ∈ t, isScalar x = true)
     (h : URL.ofText env t = .ok u) (hne : u.host ≠ []) (hhost : HostOK env false u)
     (hidna : env.idnaDec u.host = some u.host) (hport : PortNat u)
-    (hus : ∀ x ∈ env.nfc u.username, isScalar x = true) (hps : ∀ x ∈ env.nfc u.password, isScalar x = true)
     (h1 : ∀ s ∈ u.pathParts, 37 ∉ s) (h2 : ∀ kv ∈ u.query, 37 ∉ kv.1 ∧ ∀ v, kv.2 = some v → 37 ∉ v)
     (h3 : 37 ∉ u.fragment) :
     ∃ t₁ u₁, toText env false u = .ok t₁ ∧ URL.ofText env t₁ = .ok u₁ ∧ toText env false u₁ = .ok t₁ :=
-  render_fixed_min_partial env hl u (parsed_WFmin h hne hhost hidna hport hus hps h1 h2 h3)
+  have hs := parsed_scalars hnfc h ht
+  render_fixed_min_partial env hl u (parsed_WFmin h hne hhost hidna hport hs.username hs.password h1 h2 h3)
 
 theorem parsed_fixed_min_noauth (env : Env) (t : Text) (u : URL)
     (h : URL.ofText env t = .ok u) (hh : u.host = []) (hu : u.username = []) (hp : u.password = [])
@@ -470,6 +492,8 @@ theorem parsed_fixed_min_noauth (env : Env) (t : Text) (u : URL)
     ∃ t₁ u₁, toText env false u = .ok t₁ ∧ URL.ofText env t₁ = .ok u₁ ∧ toText env false u₁ = .ok t₁ :=
   have ⟨t₁, u₁, h1', h2', h3', _⟩ := render_fixed_min_noauth_partial env u (parsed_WFnaMin h hh hu hp h1 h2 h3)
   ⟨t₁, u₁, h1', h2', h3'⟩
+
+example : NfcScalar env0.nfc := fun _ h => h
 
 /-- what the parser never returns: an empty list of path segments, an (empty key, no value) query parameter, a
     scheme with a character of `:/?#`; and with a host the path is absolute or empty -/
